@@ -191,6 +191,20 @@ Definition minmax_args (rc ic data : list Z) (rsize fill : Z) (maxm : bool) : li
 
 (* ------------------------------------------------------------------ _arg_minmax_common *)
 
+(* the part of _arg_minmax_common between "move `axis` to the front" and the transposition back:
+   x has at least two axes here, axis is non-negative *)
+Definition arg_core (maxm : bool) (x : coo Z) (axis : Z) : res (coo Z) :=
+  '(a, rest) <- py_pop (iota (length (c_shape x))) axis ;;
+  '(s, srest) <- py_pop (c_shape x) axis ;;
+  let xt := ss_transpose x (a :: rest) in
+  xr <- ss_reshape xt [s; size srest] ;;
+  let '(ri, rd) := minmax_args (map (fun ix => znth ix 0) (c_coords xr))
+                               (map (fun ix => znth ix 1) (c_coords xr)) (c_data xr) s (c_fill xr) maxm in
+  let r := ss_prune (mkCOO [size srest] (map (fun i => [i]) ri) rd 0) in
+  r1 <- ss_reshape r (1 :: srest) ;;
+  '(h, t) <- py_pop (iota (length (c_shape r1))) 0 ;;
+  Ok (ss_transpose r1 (py_insert t axis h)).
+
 Definition ss_argminmax (maxm : bool) (x0 : coo Z) (axis0 : option Z) (keepdims : bool) : res (coo Z) :=
   let nd0 := ndimZ x0 in
   if (match axis0 with Some a => nd0 <=? a | None => false end) then Raise ValueError
@@ -212,16 +226,7 @@ Definition ss_argminmax (maxm : bool) (x0 : coo Z) (axis0 : option Z) (keepdims 
                           end ;;
       let input_1d := (match orig with None => true | Some _ => false end) && (ndimZ x =? 1) in
       let x := if (axis =? 0) && (ndimZ x =? 1) then newaxis_back x else x in
-      '(a, rest) <- py_pop (iota (length (c_shape x))) axis ;;
-      '(s, srest) <- py_pop (c_shape x) axis ;;
-      let xt := ss_transpose x (a :: rest) in
-      xr <- ss_reshape xt [s; size srest] ;;
-      let '(ri, rd) := minmax_args (map (fun ix => znth ix 0) (c_coords xr))
-                                   (map (fun ix => znth ix 1) (c_coords xr)) (c_data xr) s (c_fill xr) maxm in
-      let r := ss_prune (mkCOO [size srest] (map (fun i => [i]) ri) rd 0) in
-      r1 <- ss_reshape r (1 :: srest) ;;
-      '(h, t) <- py_pop (iota (length (c_shape r1))) 0 ;;
-      let r2 := ss_transpose r1 (py_insert t axis h) in
+      r2 <- arg_core maxm x axis ;;
       match orig with
       | Some n =>
         r3 <- ss_reshape r2 (map (fun _ => 1) (seq 0 (Z.to_nat n))) ;;
